@@ -71,7 +71,9 @@ Record blk := Blk { k_num : N; k_bridges : list bev; k_claims : list cev }.
 
 (* one row of certificate_info; r_exits / r_imported are the exits of the signed certificate stored with it *)
 Record row := Row { height : N; cid : N; st : status; from : N; to : N; prev : hash; new : hash; retry : N;
-                    r_exits : list bev; r_imported : list cev }.
+                    r_exits : list bev; r_imported : list cev;
+                    r_hasprev : bool   (* PreviousLocalExitRoot != nil: always for rows written by sendCertificate; a row
+                                          rebuilt at start-up from an Agglayer header may lack it *) }.
 
 Record state := State {
   l2 : list blk;              (* processed blocks, chain order *)
@@ -132,7 +134,7 @@ Fixpoint poll_pending (failing : bool) (a : list acert) (rs : list row) : list r
         else match agg_status a (cid r) with
              | None => (r :: t', CpAbort)                           (* unknown certificate: the call errors *)
              | Some s' =>
-               (Row (height r) (cid r) s' (from r) (to r) (prev r) (new r) (retry r) (r_exits r) (r_imported r) :: t',
+               (Row (height r) (cid r) s' (from r) (to r) (prev r) (new r) (retry r) (r_exits r) (r_imported r) (r_hasprev r) :: t',
                 CpOk (p || is_open s') (e || (negb (is_in_error (st r)) && is_in_error s')) true)
              end
       else (r :: t', CpOk p e called)
@@ -151,13 +153,19 @@ Definition last_sent_block (last : option row) : N * N :=
   | None => (start_block, 0)
   | Some r => if is_in_error (st r) then ((if 0 <? from r then from r - 1 else to r), retry r + 1) else (to r, 0)
   end.
-(* getNextHeightAndPreviousLER (rows written by sendCertificate always carry their previous LER) *)
-Definition next_height_ler (last : option row) : option (N * hash) :=
+(* getNextHeightAndPreviousLER; [rs] = the table (GetCertificateHeaderByHeight for the fallback) *)
+Definition next_height_ler (rs : list row) (last : option row) : option (N * hash) :=
   match last with
   | None => Some (0, start_ler)
   | Some r => if negb (is_closed (st r)) then None
               else if is_settled (st r) then Some (height r + 1, new r)
-              else if is_in_error (st r) then Some (height r, prev r)
+              else if is_in_error (st r) then
+                if r_hasprev r then Some (height r, prev r)                     (* reuse the stored previous LER *)
+                else if height r =? 0 then Some (0, start_ler)                  (* the first one *)
+                else match find (fun q => height q =? height r - 1) rs with     (* the previous certificate must be settled *)
+                     | None => None
+                     | Some q => if is_settled (st q) then Some (height r, new q) else None
+                     end
               else None
   end.
 (* getNewLocalExitRoot: no bridges => previous LER; else GetExitRootByIndex(MaxDepositCount = count of the LAST bridge) *)
@@ -174,7 +182,7 @@ Definition build_range (s : state) (last : option row) (rc f t : N) : option (su
   if require_events && is_nil bs && is_nil cs then None else                      (* PPFlow: buildParams.IsEmpty() *)
   (* VerifyBuildParams: verifyRetryCertStartingBlock (IsARetry: RetryCount > 0 && LastSentCertificate != nil) *)
   if (0 <? rc) && match last with Some r => negb (f =? from r) | None => false end then None else
-  match next_height_ler last with
+  match next_height_ler (rows s) last with
   | None => None
   | Some (h, p) =>
     match new_ler (roots s) bs p with
@@ -224,7 +232,7 @@ Definition replace_top (rs : list row) (r : row) : list row :=
   | [] => [r]
   end.
 Definition sub_row (sb : submission) (rc : N) : row :=
-  Row (s_height sb) (s_id sb) Pending (s_from sb) (s_to sb) (s_prev sb) (s_new sb) rc (s_exits sb) (s_imported sb).
+  Row (s_height sb) (s_id sb) Pending (s_from sb) (s_to sb) (s_prev sb) (s_new sb) rc (s_exits sb) (s_imported sb) true.
 
 Definition set_rows_fail (s : state) (rs : list row) (fl : bool) : state :=
   State (l2 s) (synced s) (tr s) (roots s) rs (agg s) (next_id s) fl.
@@ -285,7 +293,7 @@ End Model.
 Arguments Blk {bev cev}. Arguments k_num {bev cev}. Arguments k_bridges {bev cev}. Arguments k_claims {bev cev}.
 Arguments Row {hash bev cev}. Arguments height {hash bev cev}. Arguments cid {hash bev cev}. Arguments st {hash bev cev}.
 Arguments from {hash bev cev}. Arguments to {hash bev cev}. Arguments prev {hash bev cev}. Arguments new {hash bev cev}.
-Arguments retry {hash bev cev}. Arguments r_exits {hash bev cev}. Arguments r_imported {hash bev cev}.
+Arguments retry {hash bev cev}. Arguments r_exits {hash bev cev}. Arguments r_imported {hash bev cev}. Arguments r_hasprev {hash bev cev}.
 Arguments State {hash bev cev tree}. Arguments l2 {hash bev cev tree}. Arguments synced {hash bev cev tree}.
 Arguments tr {hash bev cev tree}. Arguments roots {hash bev cev tree}. Arguments rows {hash bev cev tree}.
 Arguments agg {hash bev cev tree}. Arguments next_id {hash bev cev tree}. Arguments fail_next {hash bev cev tree}.
@@ -349,3 +357,71 @@ Definition xstate_empty : xstate := State [] 0 xtree_empty [] [] [] 0 false.
 (* PP flow, certificate type 1 *)
 Definition xstep (retry_now : bool) (start_blk : N) (start_root : N) : xstate -> xevent -> xstate * list xsub :=
   step N bridge_ev claim_ev bridge_leaf b_dc xtree xtree_add retry_now start_blk start_root true 1.
+
+(* ------------------------------------------------------------------------------------------ *)
+(* Restart and recovery (executable instance only).                                             *)
+(* A restart creates new AggSender objects on the same certificate database (or on an empty one: database lost) and
+   runs one iteration of CheckInitialStatus; that iteration is NOT re-modelled here: it is Model/Reconcile.v's
+   [recover] (C13: CheckPendingCertificatesStatus, initialStatus.process, executeInitialStatusAction,
+   newCertificateInfoFromAgglayerCertHeader) applied to the table and to the Agglayer's view. While the recovery is
+   refused the node stays in CheckInitialStatus: every tick is another attempt and nothing is sent.
+   A crash tick is a tick during which the process dies between "SendCertificate accepted" and the local save,
+   followed by the restart.
+   The theorems of Proofs/AggsenderProofs.v are about [step] (restart-free schedules); these events extend the
+   executable model that is compared with the real code (see Properties/C02.v for what is and is not proved). *)
+Record xinfo := XI { xi_id : N; xi_from : N; xi_to : N; xi_prev : N; xi_new : N }.   (* what the Agglayer keeps of a certificate *)
+Record xrstate := XR { xr_core : xstate; xr_info : list xinfo; xr_recovering : bool }.
+Inductive xrevent := RCore (e : xevent) | RRestart (lost : bool) | RCrashTick (epoch : bool) (cut : N).
+
+Definition to_rrow (r : xrow) : Reconcile.row :=
+  {| r_height := height r; r_retry := retry r; r_id := cid r; r_status := st r;
+     r_prev_ler := if r_hasprev r then Some (prev r) else None; r_new_ler := new r; r_from := from r; r_to := to r;
+     r_created := None; r_ctype := 1; r_from_agg := false |}.
+Definition of_rrow (l : list (blk bridge_ev claim_ev)) (r : Reconcile.row) : xrow :=
+  Row (r_height r) (r_id r) (r_status r) (r_from r) (r_to r) (match r_prev_ler r with Some p => p | None => 0 end)
+      (r_new_ler r) (r_retry r) (bridges_in l (r_from r) (r_to r)) (claims_in l (r_from r) (r_to r))
+      (match r_prev_ler r with Some _ => true | None => false end).
+(* the header the Agglayer serves: metadata V2 as BuildCertificate wrote it; prev_local_exit_root only when [agg_prev] *)
+Definition hdr_of (agg_prev : bool) (info : list xinfo) (c : acert) : hdr :=
+  let i := match find (fun i => xi_id i =? a_id c) info with Some i => i | None => XI (a_id c) 0 0 0 0 end in
+  {| h_height := a_height c; h_id := a_id c; h_status := a_st c; h_new_ler := xi_new i;
+     h_prev_ler := if agg_prev then Some (xi_prev i) else None;
+     h_meta := meta_encode (new_metadata (xi_from i) (xi_to i) 0 1) |}.
+(* [agg] is kept newest first: latest settled = first settled one; latest pending = the newest unless it is settled *)
+Definition view_of (agg_prev : bool) (info : list xinfo) (a : list acert) : aggview :=
+  {| a_settled := option_map (hdr_of agg_prev info) (find (fun c => is_settled (a_st c)) a);
+     a_pending := match a with c :: _ => if is_settled (a_st c) then None else Some (hdr_of agg_prev info c) | [] => None end;
+     a_known := map (hdr_of agg_prev info) a |}.
+
+(* one iteration of CheckInitialStatus on a fresh process; the scripted failure does not outlive the old process *)
+Definition recover_x (agg_prev lost : bool) (s : xrstate) : xrstate :=
+  let c := xr_core s in
+  let store0 := {| s_info := if lost then [] else map to_rrow (rows c); s_hist := [] |} in
+  let '(store1, out) := Reconcile.recover false (view_of agg_prev (xr_info s) (agg c)) store0 in
+  let rows1 := map (of_rrow (l2 c)) (rev (sort_by_height (s_info store1))) in
+  XR (State (l2 c) (synced c) (tr c) (roots c) rows1 (agg c) (next_id c) false) (xr_info s) (refused out).
+
+Definition info_of (subs : list xsub) : list xinfo := map (fun sb => XI (s_id sb) (s_from sb) (s_to sb) (s_prev sb) (s_new sb)) subs.
+
+Definition xrstep (retry_now : bool) (start_blk start_root : N) (agg_prev : bool) (s : xrstate) (e : xrevent) : xrstate * list xsub :=
+  let core_step := xstep retry_now start_blk start_root in
+  (* the same tick with a builder that builds nothing = the status refresh alone *)
+  let poll_only := step_gen N bridge_ev claim_ev bridge_leaf b_dc xtree xtree_add retry_now (fun _ _ => None) in
+  match e with
+  | RCore ev =>
+      match ev, xr_recovering s with
+      | EpochTick _, true | StatusTick _, true => (recover_x agg_prev false s, [])       (* still inside CheckInitialStatus *)
+      | _, _ => let '(c', subs) := core_step (xr_core s) ev in (XR c' (xr_info s ++ info_of subs) (xr_recovering s), subs)
+      end
+  | RRestart lost => (recover_x agg_prev lost s, [])
+  | RCrashTick epoch cut =>
+      if xr_recovering s then (recover_x agg_prev false s, []) else
+      let ev := if epoch then EpochTick cut else StatusTick cut in
+      let '(c', subs) := core_step (xr_core s) ev in
+      (* the certificate reached the Agglayer, the row did not reach the table *)
+      let c'' := match subs with
+                 | [] => c'
+                 | _ => State (l2 c') (synced c') (tr c') (roots c') (rows (fst (poll_only (xr_core s) ev))) (agg c') (next_id c') (fail_next c')
+                 end in
+      (recover_x agg_prev false (XR c'' (xr_info s ++ info_of subs) false), subs)
+  end.
